@@ -6,6 +6,8 @@ CONSTANTS
   MaxLen = @@LEN@@
   BodyClasses = @@CONTENTS@@
   Flags = @@FLAGS@@
+  MaxFrames = 1
+  Threads = {1}
   MaxStall = @@STALL@@
   Chunking = "@@CHUNK@@"
   Dev = {}
